@@ -278,6 +278,12 @@ Definition mon_C05 (rs : list row) : verdict :=
        | i :: _ => if connected (fresh_alive rs) ids then mkV 520 (Z.to_N i) else mkV 521 (Z.to_N i)
        end.
 
+(* a stream write to a frozen host that was still blocked after every deadline the code can have set (kind 18
+   rows: node, milliseconds): the goroutine that wrote — the periodic push/pull, or the probe's TCP fallback —
+   is stuck for good, so that node's anti-entropy (or failure detector) has stopped *)
+Definition mon_stuck (code : N) (rs : list row) : verdict :=
+  first_some (fun r => mkV code (Z.to_N (rget 2 r))) (of_kind 18 rs).
+
 (* ---------- entry ---------- *)
 (* sel: 0 everything; 3 / 4 / 5 only that property's monitors (plus the correspondence) *)
 Definition check_case (sel : Z) (cs : list int * (list (list int) * list (list int))) : verdict :=
@@ -294,6 +300,7 @@ Definition check_case (sel : Z) (cs : list int * (list (list int) * list (list i
           vthen (if on 4 then mon_C04 rs else vok)
           (vthen (if on 3 then mon_C03_detect c rs else vok)
           (vthen (if on 3 then mon_C03_sched c rs else vok)
-                 (corr_sched c rs)))
-        else if on 5 then vthen (mon_below_owner rs) (mon_C05 rs) else vok
+          (vthen (if on 3 then mon_stuck 536 rs else vok)
+                 (corr_sched c rs))))
+        else if on 5 then vthen (mon_stuck 523 rs) (vthen (mon_below_owner rs) (mon_C05 rs)) else vok
   end.
